@@ -176,3 +176,37 @@ Definition typed_parse_input (std : bool) (old d : list byte) (buffer_size : N) 
   let got := recv_into room d in
   let n := (if std then std_rrset_parse_len else async_rrset_parse_len) (lenN got) buffer_size in
   firstn (N.to_nat n) (recv_over old got).
+
+(* ---- the reusable buffer across typed queries: `self.buf` as (capacity, len) ----
+   One typed query: refuse with BadParam, or take the buffer (self.buf becomes the empty Vec), grow
+   it if take_buf says so — Vec::reserve(additional) does nothing when capacity - len >= additional
+   and otherwise guarantees capacity >= len + additional ([slack]: whatever more the allocator
+   gives) —, set its length to what take_buf says, which is UNDEFINED BEHAVIOUR unless that is within
+   the capacity (`unsafe { buf.set_len(..) }`), hand it to the raw query, and afterwards put it back
+   cut to the response (completed), as it is (failed), or never (the future was dropped mid-flight:
+   async clients).  The refusal test, the growth test, the amount reserved and the two lengths are
+   translated leaves of both client families. *)
+Inductive tq_event := TqDone (response_len : N) | TqFailed | TqDropped.
+Inductive tq_out := TqRefused | TqUB | TqPanic | TqRan (buf_len : N).
+Definition tq_step (std : bool) (bs : N) (st : N * N) (slack : N) (e : tq_event) : (N * N) * tq_out :=
+  let (cap, len) := st in
+  if (if std then std_rrset_refuse bs cap cap else async_rrset_refuse bs cap cap) then (st, TqRefused) else
+  let grow := if std then std_take_buf_grow bs cap cap else async_take_buf_grow bs cap cap in
+  let sub_ok := if std then std_take_buf_reserve_nounderflow bs cap cap else async_take_buf_reserve_nounderflow bs cap cap in
+  if grow && negb sub_ok then ((0, 0), TqPanic) else
+  let additional := if std then std_take_buf_reserve bs cap cap else async_take_buf_reserve bs cap cap in
+  let cap1 := if grow then (if additional <=? cap - len then cap else len + additional + slack) else cap in
+  let n := if std then std_take_buf_len 0 bs else async_take_buf_len 0 bs in
+  if cap1 <? n then ((0, 0), TqUB) else
+  match e with
+  | TqDone r =>
+    let m := (if std then std_rrset_parse_len else async_rrset_parse_len) r bs in
+    if cap1 <? m then ((0, 0), TqUB) else ((cap1, m), TqRan n)
+  | TqFailed => ((cap1, n), TqRan n)
+  | TqDropped => ((0, 0), TqRan n)
+  end.
+Fixpoint tq_run (std : bool) (bs : N) (st : N * N) (h : list (N * tq_event)) : list tq_out :=
+  match h with
+  | [] => []
+  | (slack, e) :: rest => let (st', o) := tq_step std bs st slack e in o :: tq_run std bs st' rest
+  end.
